@@ -406,7 +406,10 @@ def special_c17(res, tier, seed, workdir, stats):
                     if d is not None:
                         nbad += 1
                         if nbad <= 2:
-                            res.replay(dict(kind="impl-violates-property", config=f"miri-{tkey}", message=f"output on {tkey} differs from the little-endian 64-bit host at op `{c.ops[d][:80]}`: {touts[k][d][:70]} vs {refs[k][d][:70]}",
+                            tv = touts[k][d][:70] if d < len(touts[k]) else "<no output: the runner died here>"
+                            hv = refs[k][d][:70] if d < len(refs[k]) else "<no output>"
+                            opd = c.ops[d][:80] if d < len(c.ops) else "?"
+                            res.replay(dict(kind="impl-violates-property", config=f"miri-{tkey}", message=f"output on {tkey} differs from the little-endian 64-bit host at op `{opd}`: {tv} vs {hv}",
                                             ops=c.ops[:d + 1], on_target=touts[k][:d + 1], on_host=refs[k][:d + 1]))
             res.n_oracle_fail += nbad
             st["differs_from_host"] = nbad
